@@ -59,6 +59,20 @@ pub fn mutant_universe(mut u: Universe, seed: u64) -> Universe {
         u.subjects.push(b);
         u.pairs.push((u.subjects.len() - 2, u.subjects.len() - 1));
     }
+    // array lengths that agree modulo 2^32 (no value of such a type exists: it is mentioned below PhantomData / as
+    // the item of a zero-length array)
+    {
+        use vmodel::ty::{Prim, Ty};
+        let huge = (1usize << 32) + 2;
+        for (a, b) in [
+            (Ty::phantom(Ty::arr(Ty::Prim(Prim::U8), 2)), Ty::phantom(Ty::arr(Ty::Prim(Prim::U8), huge))),
+            (Ty::arr(Ty::arr(Ty::Prim(Prim::U16), 1), 0), Ty::arr(Ty::arr(Ty::Prim(Prim::U16), huge - 1), 0)),
+        ] {
+            u.subjects.push(a);
+            u.subjects.push(b);
+            u.pairs.push((u.subjects.len() - 2, u.subjects.len() - 1));
+        }
+    }
     // the same definition with a different value of one const generic argument
     for si in 0..n_subjects {
         let t = u.subjects[si].clone();
